@@ -604,6 +604,30 @@ def sym_float(x):
     return float(x)
 
 
+class _IntShadowMeta(type):
+    def __instancecheck__(cls, x):
+        return isinstance(x, int) or (isinstance(x, SNum) and x.is_int)
+
+    def __call__(cls, x=0, *a):
+        return int(x, *a) if a else sym_int(x)
+
+
+class IntShadow(metaclass=_IntShadowMeta):
+    """Stands in for the name ``int`` inside a module under test: conversion truncates terms, isinstance() works."""
+
+
+class _FloatShadowMeta(type):
+    def __instancecheck__(cls, x):
+        return isinstance(x, float) or (isinstance(x, SNum) and not x.is_int)
+
+    def __call__(cls, x=0.0):
+        return sym_float(x)
+
+
+class FloatShadow(metaclass=_FloatShadowMeta):
+    """Stands in for the name ``float`` inside a module under test."""
+
+
 def install_shadows():
     """Shadow the module-level names int / float of the /repo modules that convert clock or period values, so
     that proxies pass through them (no source edit; idempotent)."""
@@ -616,8 +640,8 @@ def install_shadows():
             m = importlib.import_module(name)
         except Exception:
             continue
-        m.int = sym_int
-        m.float = sym_float
+        m.int = IntShadow
+        m.float = FloatShadow
 
 
 class SBV:
